@@ -106,7 +106,7 @@ class Search:
         findings; returns a finding key or None (fresh violation)"""
         R, rb = self.R, self.rb
         if uses_tree(cfg):
-            return "C05-N2:tree-restart-not-bitwise"
+            return self.tree_signature(cfg, path, k)
         # rebuild original and restored from scratch so the counterfactual starts from the same states
         a = build_sim(rb, cfg); advance(a, cfg["save_after"])
         self.pre_save_edit(a, cfg)
@@ -130,13 +130,13 @@ class Search:
                 return "C05-N6:trace-collision-nondeterministic"
             n = self.peek(a, "N_allocated_collisions", ctypes.c_int)
             if n == 0:
-                return "C05-N7:trace-collision-step-depends-on-transient-arrays"
+                return self.merge_step_signature(cfg, path, k)
             ctypes.c_void_p.from_address(ctypes.addressof(r) + self.off("collisions")).value = self.libc.malloc(n * 256)
             self.poke(r, "N_allocated_collisions", n, ctypes.c_int)
             apply_ops(a, cfg.get("post", [])); apply_ops(r, cfg.get("post", []))
             advance(a, k); advance(r, k)
             d2 = R.first_difference(self.semantic(R.persisted_view(a)), self.semantic(R.persisted_view(r)))
-            return "C05-N4:trace-reads-collision-allocation-counter" if d2 is None else "C05-N7:trace-collision-step-depends-on-transient-arrays"
+            return "C05-N4:trace-reads-collision-allocation-counter" if d2 is None else self.merge_step_signature(cfg, path, k)
         elif cfg["integrator"] == "bs" or (cfg["integrator"] == "trace"):
             # F9b: the loader's first step re-creates the ODE and forces first_or_last_step=1; do the same to the original
             self.poke(a, "ri_bs.first_or_last_step", 1, ctypes.c_int)
@@ -147,6 +147,76 @@ class Search:
         advance(a, k); advance(r, k)
         d2 = R.first_difference(self.semantic(R.persisted_view(a)), self.semantic(R.persisted_view(r)))
         return key if d2 is None else None
+
+    def first_divergence(self, cfg, path, k):
+        """rebuild original and restored, step one at a time; returns (a, r, step, t_before, N_before) at the first
+        step after which the persisted bytes differ, or None"""
+        R, rb = self.R, self.rb
+        a = build_sim(rb, cfg); advance(a, cfg["save_after"]); self.pre_save_edit(a, cfg)
+        r, _ = self.restore(a, path); attach(r, cfg)
+        apply_ops(a, cfg.get("post", [])); apply_ops(r, cfg.get("post", []))
+        for s_ in range(1, k + 1):
+            tb, nb = a.t, (a.N, r.N)
+            advance(a, 1); advance(r, 1)
+            if R.first_difference(self.semantic(R.persisted_view(a)), self.semantic(R.persisted_view(r))) is not None:
+                return a, r, s_, tb, nb
+        return None
+
+    def tree_signature(self, cfg, path, k):
+        """C05-N2 is ONLY: tree present and complete on both sides, same N, same collisions, and at the first diverging
+        step the two particle sets agree up to a permutation and 1e-9 relative (order / summation-order effects of a
+        differently shaped tree).  Anything else in a tree configuration is a fresh violation."""
+        R = self.R
+        fd = self.first_divergence(cfg, path, k)
+        if fd is None:
+            return None
+        a, r, s_, tb, nb = fd
+        if not (R.tree_complete(a) and R.tree_complete(r)):
+            return None
+        if R.collision_signature(a, -1e300)[:2] != R.collision_signature(r, -1e300)[:2]:
+            return None
+        sa_, sr_ = R.collision_signature(a, tb), R.collision_signature(r, tb)
+        if (sa_[0], sa_[2], sa_[3]) != (sr_[0], sr_[2], sr_[3]) or abs(sa_[1] - sr_[1]) > 1e-12 * abs(sa_[1]):
+            return None
+        if a.t != r.t and cfg["integrator"] not in ("ias15", "bs"):
+            return None
+
+        def keyed(sim):
+            return sorted((p.m, p.x, p.y, p.z, p.vx, p.vy, p.vz) for p in [sim.particles[i] for i in range(sim.N)])
+        scale = max(1.0, max(abs(v) for tup in keyed(a) for v in tup[1:]))
+        for ta, tr in zip(keyed(a), keyed(r)):
+            if ta[0] != tr[0] or any(not abs(x - y) <= 1e-9 * scale for x, y in zip(ta[1:], tr[1:])):
+                return None
+        return "C05-N2:tree-restart-not-bitwise"
+
+    def merge_step_signature(self, cfg, path, k):
+        """C05-N7 is ONLY: TRACE with collisions, and the first diverging step is a step in which a collision was resolved
+        (N changed or some particle's last_collision lies in that step)"""
+        fd = self.first_divergence(cfg, path, k)
+        if fd is None:
+            return None
+        a, r, s_, tb, nb = fd
+        collided = (a.N, r.N) != nb or any(sim.particles[i].last_collision >= tb for sim in (a, r) for i in range(sim.N))
+        return "C05-N7:trace-collision-step-depends-on-transient-arrays" if collided else None
+
+    def continue_diff(self, cfg, path, k):
+        """first difference (semantic view) between original and restored after the history of cfg; None if equal"""
+        R, rb = self.R, self.rb
+        a = build_sim(rb, cfg); advance(a, cfg["save_after"]); self.pre_save_edit(a, cfg)
+        r, _ = self.restore(a, path); attach(r, cfg)
+        apply_ops(a, cfg.get("post", [])); apply_ops(r, cfg.get("post", []))
+        advance(a, k); advance(r, k)
+        return R.first_difference(self.semantic(R.persisted_view(a)), self.semantic(R.persisted_view(r)))
+
+    def rawswitch_signature(self, cfg, path, k):
+        """C05-N11 is ONLY: the same history with `reset_integrator()` after every integrator assignment continues bit-for-bit"""
+        cfg2 = dict(cfg)
+        cfg2["pre"] = [op.replace("switchraw:", "switch:") for op in cfg.get("pre", [])]
+        cfg2["post"] = [op.replace("switchraw:", "switch:") for op in cfg.get("post", [])]
+        try:
+            return "C05-N11:integrator-switched-without-reset" if self.continue_diff(cfg2, path, k) is None else None
+        except Exception:
+            return None
 
     def pre_save_edit(self, sim, cfg):
         """state edits a user performs right before saving (part of the configuration)"""
@@ -185,6 +255,21 @@ class Search:
             c.violation("restore:" + d1.split(" ")[0], "restored simulation differs from the saved one in %s (path %s)" % (d1, path),
                         {"cfg": cfg, "path": path, "difference": d1})
             return
+        rawd = R.raw_member_differences(a, r)
+        if rawd:
+            c.violation("restore-raw:" + rawd[0], "persisted member(s) %s of the restored simulation differ in struct memory from the source although the streams agree (path %s, cfg %s)" % (rawd[:4], path, key),
+                        {"cfg": cfg, "path": path, "members": rawd})
+            return
+        if R.tree_expected(a):
+            self.hist["tree_mode_cases"] = self.hist.get("tree_mode_cases", 0) + 1
+            if R.tree_complete(a) and not R.tree_complete(r):
+                lv = R.tree_leaves(r)
+                c.violation("tree-not-rebuilt:%s/%s" % (a.gravity, a.collision),
+                            "after restore (%s) the tree of a simulation using gravity=%s collision=%s holds %s of %d particles (source: all): collisions / tree forces are lost, cfg %s" % (
+                                path, a.gravity, a.collision, "no tree" if lv is None else len(lv), r.N, key), {"cfg": cfg, "path": path})
+                return
+            if not R.tree_complete(a):
+                self.hist["source_tree_incomplete"] = self.hist.get("source_tree_incomplete", 0) + 1
         bad_warn = [w for w in warns if "function pointers" not in w]
         if bad_warn:
             c.violation("warning:" + bad_warn[0][:40], "loading a just-saved simulation warns: %s" % bad_warn[0], {"cfg": cfg, "path": path})
@@ -211,7 +296,7 @@ class Search:
                         {"cfg": cfg, "path": path, "difference": d2})
             return
         rawswitch = any(op.startswith("switchraw:") for op in cfg.get("pre", []) + cfg.get("post", []))
-        fk = "C05-N11:integrator-switched-without-reset" if rawswitch else self.classify_continue(cfg, b0, path, k, d3)
+        fk = self.rawswitch_signature(cfg, path, k) if rawswitch else self.classify_continue(cfg, b0, path, k, d3)
         what = "restored simulation does not continue bit-for-bit after %d steps: %s (path %s, cfg %s)" % (k, d3, path, key)
         c.violation(fk if fk else "continue:" + cfg["integrator"] + ":" + d3.split(" ")[0], what,
                     {"cfg": cfg, "path": path, "steps": k, "difference": d3})
@@ -245,7 +330,20 @@ def _twin_one(self, cfg, path, k=9):
     na, n = self.peek(t2, "ri_ias15.N_allocated"), self.peek(t2, "N")
     fk = None
     if any(op.startswith("switchraw:") for op in cfg.get("pre", []) + cfg.get("post", [])):
-        c.violation("C05-N11:integrator-switched-without-reset", "saved vs never-saved twin differ in a history that switches integrators without reset: %s, cfg %s" % (d, cfg_key(cfg)),
+        # C05-N11 only if the same history with reset_integrator() after each assignment keeps the twins identical
+        cfg2 = dict(cfg)
+        cfg2["pre"] = [op.replace("switchraw:", "switch:") for op in cfg.get("pre", [])]
+        cfg2["post"] = [op.replace("switchraw:", "switch:") for op in cfg.get("post", [])]
+        try:
+            u1 = build_sim(rb, cfg2); advance(u1, cfg2["save_after"]); self.pre_save_edit(u1, cfg2)
+            u2 = build_sim(rb, cfg2); advance(u2, cfg2["save_after"]); self.pre_save_edit(u2, cfg2)
+            self.restore(u1, path)
+            apply_ops(u1, cfg2["post"]); apply_ops(u2, cfg2["post"]); advance(u1, k); advance(u2, k)
+            same = R.first_difference(self.semantic(R.persisted_view(u1)), self.semantic(R.persisted_view(u2))) is None
+        except Exception:
+            same = False
+        c.violation("C05-N11:integrator-switched-without-reset" if same else "save-changes-live-trajectory:" + cfg["integrator"],
+                    "saved vs never-saved twin differ in a history that switches integrators without reset: %s, cfg %s" % (d, cfg_key(cfg)),
                     {"cfg": cfg, "path": path, "steps": k})
         return
     if na > 3 * n:
@@ -321,12 +419,14 @@ def _archive_one(self, cfg, k=7):
                 attach(r, cfg)
             except Exception as e:
                 msg = str(e)
-                if "keep_unsynchronized == 1 is not compatible with safe_mode" in msg:
+                if "keep_unsynchronized == 1 is not compatible with safe_mode" in msg and cfg["integrator"] == "saba" \
+                        and cfg.get("o", {}).get("safe_mode", 1) == 0 and gs is not None and gs[1] == 1:
                     c.violation("C05-N8:getSimulation-sets-whfast-keep_unsynchronized-on-saba",
                                 "restoring a SABA safe_mode=0 archive with %s raises: %s" % (name, msg), {"cfg": cfg, "path": name})
                 else:
                     c.violation("restore-raises:" + name.split("(")[0], "public restore path %s raises %s, cfg %s" % (name, msg[:200], key), {"cfg": cfg, "path": name})
                 continue
+            steps_at_restore = r.steps_done
             try:
                 u = twin(j)
                 if gs is None:
@@ -361,14 +461,19 @@ def _archive_one(self, cfg, k=7):
             if d is None:
                 continue
             fk = None
-            if uses_tree(cfg):
-                fk = "C05-N2:tree-restart-not-bitwise"
-            elif cfg["integrator"] == "trace" and cfg.get("o", {}).get("peri_mode", 1) != 1:
-                fk = "F9a:trace-peri_mode-not-persisted"
-            elif cfg["integrator"] in ("eos", "mercurius") and gs is not None and gs[1] == 1 and cfg.get("o", {}).get("safe_mode", 1) == 0:
-                fk = "C05-N10:getSimulation-synchronizes-eos-mercurius-for-real"
-            elif cfg["integrator"] in ("bs",):
-                fk = "F9b:bs-first_or_last_step-forced-after-load"
+            if cfg["integrator"] in ("eos", "mercurius") and gs is not None and gs[1] == 1 and cfg.get("o", {}).get("safe_mode", 1) == 0:
+                # C05-N10 only if a twin that is REALLY synchronised at the restore point continues bit-for-bit with the restored one
+                try:
+                    u2 = twin(j)
+                    if gs[0] == "close":
+                        while u2.steps_done < steps_at_restore:
+                            u2.steps(1)
+                    u2.synchronize()
+                    advance(u2, k); u2.synchronize()
+                    if R.first_difference(phys(u2), phys(r)) is None:
+                        fk = "C05-N10:getSimulation-synchronizes-eos-mercurius-for-real"
+                except Exception:
+                    pass
             c.violation(fk if fk else "archive-continue:" + name.split("(")[0] + ":" + cfg["integrator"],
                         "simulation restored with %s does not continue bit-for-bit with the uninterrupted run (%d steps): %s, cfg %s" % (name, k, d, key),
                         {"cfg": cfg, "path": name, "steps": k, "difference": d})
@@ -577,6 +682,116 @@ def heap_sweep(c, S, info, R, rb):
     c.cov["heap_sweep_cases"] = n
 
 
+def archive_field_sweep(c, S, info, R, rb):
+    """single-field-change histories through the ARCHIVE path: snapshot 0, change exactly one persisted member (scalar
+    member of the struct, or one member of one element of a persisted array), append snapshot 1 (a delta that must
+    contain that field), restore snapshot 1 through Simulation(fn) and Simulationarchive[1] and read the member back;
+    snapshot 0 must still hold the old value"""
+    per = persisted_paths(info)
+    counters = {r["npath"] for r in info["rows"] if r.get("npath")}
+    res = {"scalar_members": 0, "element_members": 0}
+    fn = os.path.join(S.tmp, "sweep.bin")
+
+    def newval(m, old):
+        if m["kind"] == "f64":
+            return struct.pack("<d", 1.0009765625 + m["idx"])
+        if m["kind"] == "vec3d":
+            return struct.pack("<3d", 2.5 + m["idx"], -3.25, 4.125)
+        if m["size"] == 8:
+            return struct.pack("<Q", 0x0123456789ABCD00 + m["idx"])     # every byte non-zero incl. the high ones
+        return struct.pack("<I", 0x01020304 + m["idx"])
+
+    def roundtrip(a, loc_of, size, new):
+        """a: live sim already saved as snapshot 0; loc_of(sim) -> address of the member"""
+        old = ctypes.string_at(loc_of(a), size)
+        ctypes.memmove(loc_of(a), new, size)
+        a.save_to_file(fn)
+        import warnings
+        with warnings.catch_warnings():
+            warnings.simplefilter("ignore")
+            sa = rb.Simulationarchive(fn)
+            out = {"nblobs": len(sa)}
+            r1 = rb.Simulation(fn)
+            out["Simulation(fn)"] = ctypes.string_at(loc_of(r1), size) == new
+            r2 = sa[1] if len(sa) > 1 else None
+            out["sa[1]"] = r2 is not None and ctypes.string_at(loc_of(r2), size) == new
+            r0 = sa[0]
+            out["sa[0]_old"] = ctypes.string_at(loc_of(r0), size) == old
+            if r2 is not None:
+                out["whole"] = R.first_difference(R.persisted_view(a, drop_wall=False), R.persisted_view(r2, drop_wall=False)) is None
+        return out
+
+    def fresh(cfg):
+        if os.path.exists(fn):
+            os.remove(fn)
+        a = build_sim(rb, cfg); advance(a, cfg["save_after"])
+        a.save_to_file(fn)
+        return a
+
+    def judge(out, ok, label, what, replay):
+        if not ok:
+            c.violation("archive-sweep-crash:" + label, "appending / restoring a snapshot crashed after changing only %s" % what, replay)
+            return
+        bad = [k_ for k_, v in out.items() if k_ != "nblobs" and not v]
+        if out.get("nblobs") != 2:
+            bad.append("nblobs=%s" % out.get("nblobs"))
+        if bad:
+            c.violation("archive-stale-field:" + label,
+                        "a later archive snapshot that differs from snapshot 0 only in %s is not restored faithfully (%s)" % (what, ", ".join(bad)), replay)
+
+    cfgA = {"integrator": "whfast", "o": {"safe_mode": 0}, "system": "planets", "save_after": 2}
+    for m in [m for m in info["members"] if m["kind"] in ("f64", "i32", "u32", "i64", "u64", "enum32", "vec3d")]:
+        p_ = m["path"]
+        if p_ not in per or p_ in counters or p_ in ("simulationarchive_version",):
+            continue
+
+        def task(m):
+            a = fresh(cfgA)
+            return roundtrip(a, lambda sim: ctypes.addressof(sim) + m["off"], m["size"], newval(m, None))
+        ok, out = forked(task, m)
+        c.count(("archive-sweep", p_))
+        res["scalar_members"] += 1
+        if ok and p_ == "save_messages":
+            out = {k_: v for k_, v in out.items() if k_ in ("nblobs", "sa[0]_old")}   # rebound.Simulation.__init__ forces 1
+        judge(out or {}, ok, p_, "the member " + p_, {"member": p_, "cfg": cfgA})
+    bases = [cfgA, {"integrator": "ias15", "o": {}, "system": "planets", "save_after": 2, "variational": 2},
+             {"integrator": "janus", "o": {}, "system": "planets", "save_after": 2},
+             {"integrator": "mercurius", "o": {"safe_mode": 0}, "system": "close", "save_after": 2}]
+    for cfg in bases:
+        a0 = build_sim(rb, cfg); advance(a0, cfg["save_after"])
+        present = {t for t, _ in parse_stream(R.save(a0))[1]}
+        for row in info["rows"]:
+            if row["dtype"] not in ("REB_POINTER", "REB_DP7") or row["id"] not in present:
+                continue
+            el = info["elems"].get(row.get("elem") or "")
+            members = el["members"] if el else [{"name": "double", "kind": "f64", "off": 0, "size": 8}]
+            esz = el["size"] if el else 8
+            for em in members:
+                if em["kind"] in ("ptr", "fptr"):
+                    continue
+
+                def task(_):
+                    a = fresh(cfg)
+                    R.save(a)
+
+                    def loc(sim):
+                        ptr = ctypes.c_void_p.from_address(ctypes.addressof(sim) + info["by_path"][row["path"]]["off"]).value
+                        cnt = ctypes.c_uint.from_address(ctypes.addressof(sim) + info["by_path"][row["npath"]]["off"]).value
+                        return ptr + (cnt - 1) * esz + em["off"]
+                    old = ctypes.string_at(loc(a), em["size"])
+                    if em["kind"] == "f64":
+                        new = struct.pack("<d", -1.0) if row["name"] == "var_config" else struct.pack("<d", struct.unpack("<d", old)[0] * 1.5 + 0.3125)
+                    else:
+                        new = bytes((x ^ 0x01) for x in old)
+                    return roundtrip(a, loc, em["size"], new)
+                ok, out = forked(task, None)
+                label = "%s.%s" % (row["name"], em["name"])
+                c.count(("archive-sweep", label))
+                res["element_members"] += 1
+                judge(out or {}, ok, label, "%s of one element of %s" % (em["name"], row["name"]), {"row": row["name"], "member": em["name"], "cfg": cfg})
+    c.cov["archive_field_sweep"] = res
+
+
 def targeted(c, S, rb, rng, thorough):
     """scenarios aimed at the members the coverage theorem lists as not persisted but read by an integrator"""
     cases = []
@@ -701,7 +916,16 @@ def run_cases(c, S, cases, nproc=8, chunk=12):
                 finish(start([one]))
         else:
             cfg, path, k = sub[0][0], sub[0][1], sub[0][2]
-            key = "C05-N5:load-crash-tree-flagged-particles" if uses_tree(cfg) else "crash:" + cfg["integrator"]
+            key = "crash:" + cfg["integrator"]
+            if uses_tree(cfg):
+                # C05-N5 is ONLY: the source holds a NaN-flagged / out-of-box particle at the save point (F17 state)
+                try:
+                    a = build_sim(rb, cfg); advance(a, cfg["save_after"]); S.pre_save_edit(a, cfg)
+                    half = [a.boxsize.x / 2, a.boxsize.y / 2, a.boxsize.z / 2]
+                    bad = any(not (abs(p.x) <= half[0] and abs(p.y) <= half[1] and abs(p.z) <= half[2]) for p in [a.particles[i] for i in range(a.N)])
+                    key = "C05-N5:load-crash-tree-flagged-particles" if bad else "crash:tree-mode-without-flagged-particles"
+                except Exception:
+                    pass
             c.violation(key, "save/load/continue of a reachable simulation crashes the process (status %d), cfg %s path %s" % (status, cfg_key(cfg), path),
                         {"cfg": cfg, "path": path, "steps": k})
     queue = list(chunks)
@@ -792,6 +1016,7 @@ def run(c):
     c.log("lattice done (%d cases)" % len(cases))
     member_sweep(c, S, info, R, rb)
     heap_sweep(c, S, info, R, rb)
+    archive_field_sweep(c, S, info, R, rb)
     c.log("sweeps done")
     targeted(c, S, rb, c.rng, c.thorough)
     c.cov["histogram"] = S.hist
